@@ -147,9 +147,27 @@ class FakeSnowflakeCursor:
                 return self
 
             expression = parse_one(command, read="snowflake")
-            for exp in self._transform_explode(expression):
-                transformed = self._transform(exp)
+            exploded = self._transform_explode(expression)
+            transformed = self._transform(exploded[0])
+            # A statement carried out in several steps (the statements a MERGE is exploded into, CREATE TABLE followed by
+            # the recording of its comment and text lengths) takes effect as a whole or not at all, and is not seen
+            # half-done by other connections. Inside a transaction of the user it is the user who commits or rolls back.
+            multi_step = len(exploded) > 1 or bool(
+                transformed.args.get("table_comment") or transformed.args.get("text_lengths")
+            )
+            own_transaction = multi_step and not self._in_transaction()
+            if own_transaction:
+                self._duck_conn.execute("BEGIN")
+            try:
                 self._execute(transformed, params)
+                for exp in exploded[1:]:
+                    self._execute(self._transform(exp), params)
+                if own_transaction:
+                    self._duck_conn.execute("COMMIT")
+            except Exception:
+                if own_transaction:
+                    self._duck_conn.execute("ROLLBACK")
+                raise
             if isinstance(expression, sqlglot.exp.Merge) and self._arrow_table is not None:
                 # the result has been fetched: don't leave the helper table behind in the session, where it is
                 # visible and shadows a table of that name
@@ -230,6 +248,12 @@ class FakeSnowflakeCursor:
             .transform(transforms.alias_in_join)
             .transform(transforms.alter_table_strip_cluster_by)
         )
+
+    def _in_transaction(self) -> bool:
+        # duckdb has no flag for it, and a second BEGIN would abort an open transaction: outside a transaction every
+        # statement gets a new transaction id, inside one the id stays the same
+        txid = "SELECT txid_current()"
+        return self._duck_conn.execute(txid).fetchall() == self._duck_conn.execute(txid).fetchall()
 
     def _transform_explode(self, expression: exp.Expression) -> list[exp.Expression]:
         # Applies transformations that require splitting the expression into multiple expressions
